@@ -69,6 +69,7 @@ Notation write_p8_chunks := (write_p8_chunks lua lua_from_lines lua_to_lines).
 Notation write_p8 := (write_p8 lua lua_from_lines lua_to_lines).
 Notation read_p8 := (read_p8 lua lua_from_lines lua_empty).
 Notation wf_cart := (wf_cart lua lua_to_lines).
+Notation wf_short := (wf_short lua lua_to_lines).
 Notation expected_chunks := (expected_chunks lua lua_to_lines).
 
 Definition code_text (c : cart) : list Z := concat (lua_to_lines (c_lua c)).
@@ -127,9 +128,9 @@ Qed.
 Lemma lift_hexline ls : Forall hexline ls -> Forall (fun l => hexline l \/ nl_lineb l = true) ls.
 Proof. intros H. eapply Forall_impl; [|exact H]. cbv beta. intros a Ha. left. exact Ha. Qed.
 
-Lemma post_hexlines c : wf_cart c -> Forall (fun l => hexline l \/ nl_lineb l = true) (post c).
+Lemma post_hexlines c : wf_short c -> Forall (fun l => hexline l \/ nl_lineb l = true) (post c).
 Proof.
-  intros (Hv & Lg & Lf & Lm & Ls & Lmu & Bg & Bf & Bm & Bs & Bmu & Hlab & Hch). unfold post, label_chunks.
+  intros (Hv & Lg & Lf & Lm & Ls & (kmu & Lmu & _) & Bg & Bf & Bm & Bs & Bmu & Hlab & Hch). unfold post, label_chunks.
   rewrite !Forall_app. repeat split.
   - constructor; [right; reflexivity | constructor].
   - apply lift_hexline, gfx_lines_hexline; exact Bg.
@@ -143,11 +144,11 @@ Proof.
   - constructor; [right; reflexivity | constructor].
   - apply lift_hexline, sfx_lines_hexline; exact Bs.
   - constructor; [right; reflexivity | constructor].
-  - apply lift_hexline, (music_lines_hexline 64); [exact Lmu | exact Bmu].
+  - apply lift_hexline, (music_lines_hexline kmu); [exact Lmu | exact Bmu].
   - constructor; [left; apply blank_hexline | constructor].
 Qed.
 
-Lemma file_lines_nl c : wf_cart c -> Forall nl_line (file_lines c).
+Lemma file_lines_nl c : wf_short c -> Forall nl_line (file_lines c).
 Proof.
   intros W. pose proof W as (Hv & _ & _ & _ & _ & _ & _ & _ & _ & _ & _ & _ & Hch).
   unfold file_lines. rewrite !Forall_app. repeat split.
@@ -160,7 +161,7 @@ Proof.
     intros a [H|H]; [apply (hexline_facts a H) | apply nl_lineb_spec; exact H].
 Qed.
 
-Lemma split_file c : wf_cart c ->
+Lemma split_file c : wf_short c ->
   ended_flag (lua_to_lines (c_lua c)) = ends_with_nl (code_text c) ->
   split_lines (concat (expected_chunks c)) = file_lines c.
 Proof.
@@ -181,13 +182,13 @@ Definition raw_sections_of (c : cart) : list (list Z * list (list Z)) :=
 Lemma rev'_app_rev {A} (a b : list A) : rev' (rev b ++ rev a) = a ++ b.
 Proof. rewrite rev'_rev, rev_app_distr, !rev_involutive. reflexivity. Qed.
 
-Lemma raw_data_ok c : wf_cart c ->
+Lemma raw_data_ok c : wf_short c ->
   ended_flag (lua_to_lines (c_lua c)) = ends_with_nl (code_text c) ->
   code_in_format (code_text c) = true ->
   get_raw_data (concat (expected_chunks c)) =
   Ok {| raw_version := c_version c; raw_sections := raw_sections_of c |}.
 Proof.
-  intros W He Hfmt. pose proof W as (Hv & Lg & Lf & Lm & Ls & Lmu & Bg & Bf & Bm & Bs & Bmu & Hlab & Hch).
+  intros W He Hfmt. pose proof W as (Hv & Lg & Lf & Lm & Ls & (kmu & Lmu & _) & Bg & Bf & Bm & Bs & Bmu & Hlab & Hch).
   unfold get_raw_data. rewrite (split_file c W He). unfold file_lines. cbn [app].
   rewrite zlist_eqb_refl. cbn [negb]. rewrite match_version_line by exact Hv.
   destruct (code_lines_facts c Hch) as (FN & _ & FB).
@@ -197,7 +198,7 @@ Proof.
   assert (HF := hex_block _ (hex_lines_hexline _ Bf)).
   assert (HM := hex_block _ (hex_lines_hexline _ Bm)).
   assert (HS := hex_block _ (sfx_lines_hexline _ Bs)).
-  assert (HMU := hex_block _ (music_lines_hexline 64 _ Lmu Bmu)).
+  assert (HMU := hex_block _ (music_lines_hexline kmu _ Lmu Bmu)).
   assert (HB := hex_block [[10]] ltac:(constructor; [apply blank_hexline | constructor])).
   unfold post, label_chunks, raw_sections_of.
   destruct (c_label c) as [d|].
@@ -241,20 +242,20 @@ Lemma lk_map : lookup_sec p8_read_sections ("map"%bs : list Z) = Some 1. Proof. 
 Lemma lk_sfx : lookup_sec p8_read_sections ("sfx"%bs : list Z) = Some 4. Proof. reflexivity. Qed.
 Lemma lk_music : lookup_sec p8_read_sections ("music"%bs : list Z) = Some 3. Proof. reflexivity. Qed.
 
-Lemma apply_sections_ok c : wf_cart c ->
+Lemma apply_sections_ok c : wf_short c ->
   foldM (apply_section lua lua_from_lines) (raw_sections_of c) (empty_cart lua lua_empty (c_version c)) =
   (l' <- lua_from_lines (code_lines c) ;; Ok (norm_cart c l')).
 Proof.
-  intros (Hv & Lg & Lf & Lm & Ls & Lmu & Bg & Bf & Bm & Bs & Bmu & Hlab & Hch).
-  assert (Eg : gfx_from_lines (gfx_to_lines (c_gfx c)) = Ok (c_gfx c)) by (apply (gfx_roundtrip 128); [lia | exact Bg]).
+  intros (Hv & (kg & Lg & _) & Lf & Lm & Ls & (kmu & Lmu & _) & Bg & Bf & Bm & Bs & Bmu & Hlab & Hch).
+  assert (Eg : gfx_from_lines (gfx_to_lines (c_gfx c)) = Ok (c_gfx c)) by (apply (gfx_roundtrip kg); [exact Lg | exact Bg]).
   destruct (gff_section (c_gff c) Bf) as (_ & Ef).
   destruct (map_section (c_map c) Bm) as (_ & Em).
   destruct (sfx_section (c_sfx c) Ls Bs) as (_ & Es).
-  destruct (music_section 64 (c_music c) Lmu Bmu) as (_ & Emu).
+  destruct (music_section kmu (c_music c) Lmu Bmu) as (_ & Emu).
   unfold raw_sections_of.
   destruct (c_label c) as [d|] eqn:EL.
-  - destruct Hlab as (Ld & Bd).
-    assert (Ed : gfx_from_lines (gfx_to_lines d) = Ok d) by (apply (gfx_roundtrip 128); [lia | exact Bd]).
+  - destruct Hlab as ((kl & Ld & _) & Bd).
+    assert (Ed : gfx_from_lines (gfx_to_lines d) = Ok d) by (apply (gfx_roundtrip kl); [exact Ld | exact Bd]).
     cbn [app foldM apply_section]. rewrite lk_lua. cbn [Z.eqb Pos.eqb].
     destruct (lua_from_lines (code_lines c)) as [l'|e]; [|reflexivity]. cbn [bind foldM apply_section].
     rewrite lk_gfx. cbn [Z.eqb Pos.eqb c_gfx c_version c_lua c_label c_gff c_map c_sfx c_music].
@@ -285,7 +286,128 @@ Proof.
     unfold norm_cart. rewrite EL. reflexivity.
 Qed.
 
+(* ---- the padding loop after the dispatch ---- *)
+Definition pad0 (n : nat) (d : list Z) : list Z := d ++ repeat 0 (n - length d).
+Definition music_default : list Z := concat (repeat [65; 66; 67; 68] 64).
+
+(* what reading makes of a short cart: every region filled up with the empty default
+   (zeros; the silent pattern 41 42 43 44 for music) *)
+Definition pad_cart (c : cart) : cart :=
+  {| c_version := c_version c; c_lua := c_lua c; c_gfx := pad0 (Z.to_nat 8192) (c_gfx c);
+     c_label := match c_label c with Some d => Some (pad0 (Z.to_nat 8192) d) | None => None end;
+     c_gff := pad0 256 (c_gff c); c_map := pad0 (Z.to_nat 4096) (c_map c); c_sfx := c_sfx c;
+     c_music := c_music c ++ skipn (length (c_music c)) music_default |}.
+
+Lemma pin_pad_sections :
+  p8_pad_sections = [(0, repeat 0 (Z.to_nat 8192)); (2, repeat 0 (Z.to_nat 256)); (1, repeat 0 (Z.to_nat 4096));
+                     (4, sfx_empty); (3, music_default); (6, repeat 0 (Z.to_nat 8192))].
+Proof. reflexivity. Qed.
+
+Lemma skipn_repeat {A} (x : A) n k : skipn k (repeat x n) = repeat x (n - k).
+Proof.
+  revert k. induction n as [|n IH]; intros k; [destruct k; reflexivity|].
+  destruct k as [|k]; [reflexivity|]. cbn [skipn repeat Nat.sub]. apply IH.
+Qed.
+
+Lemma pad_to_zeros n d : (length d <= n)%nat -> pad_to d (repeat 0 n) = pad0 n d.
+Proof.
+  intros H. unfold pad_to, pad0, zlen. rewrite repeat_length.
+  destruct (Z.of_nat (length d) <? Z.of_nat n) eqn:E.
+  - rewrite skipn_repeat. reflexivity.
+  - replace (n - length d)%nat with 0%nat by lia. cbn [repeat]. rewrite app_nil_r. reflexivity.
+Qed.
+
+Lemma pad_to_full d dflt : length d = length dflt -> pad_to d dflt = d.
+Proof. intros H. unfold pad_to, zlen. rewrite H, Z.ltb_irrefl. reflexivity. Qed.
+
+Lemma pad_to_music d : (length d <= 256)%nat -> pad_to d music_default = d ++ skipn (length d) music_default.
+Proof.
+  intros H. unfold pad_to, zlen. change (length music_default) with 256%nat.
+  destruct (Z.of_nat (length d) <? Z.of_nat 256) eqn:E; [reflexivity|].
+  rewrite skipn_all2 by (change (length music_default) with 256%nat; lia). rewrite app_nil_r. reflexivity.
+Qed.
+
+Lemma pad_sections_short (c : cart) :
+  (length (c_gfx c) <= Z.to_nat 8192)%nat -> (length (c_gff c) <= 256)%nat -> (length (c_map c) <= Z.to_nat 4096)%nat ->
+  length (c_sfx c) = 4352%nat -> (length (c_music c) <= 256)%nat ->
+  match c_label c with Some d => (length d <= Z.to_nat 8192)%nat | None => True end ->
+  pad_sections lua c = Ok (pad_cart c).
+Proof.
+  intros Hg Hf Hm Hs Hmu Hl. unfold pad_sections. rewrite pin_pad_sections.
+  cbn [foldM pad_section bind Z.eqb Pos.eqb c_version c_lua c_gfx c_label c_gff c_map c_sfx c_music].
+  rewrite !pad_to_zeros by assumption.
+  rewrite (pad_to_full (c_sfx c)) by (rewrite Hs; symmetry; apply pin_sfx_empty).
+  rewrite pad_to_music by exact Hmu.
+  unfold pad_cart. destruct (c_label c) as [d|]; [|reflexivity].
+  rewrite pad_to_zeros by exact Hl. reflexivity.
+Qed.
+
+Lemma pad0_full n d : length d = n -> pad0 n d = d.
+Proof. intros H. unfold pad0. rewrite H, Nat.sub_diag. apply app_nil_r. Qed.
+
+Lemma pad_cart_full (c : cart) :
+  length (c_gfx c) = Z.to_nat 8192 -> length (c_gff c) = 256%nat -> length (c_map c) = Z.to_nat 4096 ->
+  length (c_music c) = 256%nat ->
+  match c_label c with Some d => length d = Z.to_nat 8192 | None => True end ->
+  pad_cart c = c.
+Proof.
+  intros Hg Hf Hm Hmu Hl. unfold pad_cart. rewrite !pad0_full by assumption.
+  rewrite skipn_all2 by (change (length music_default) with 256%nat; lia). rewrite app_nil_r.
+  destruct c as [v l g lab f m sf mu]. cbn [c_version c_lua c_gfx c_label c_gff c_map c_sfx c_music] in *.
+  destruct lab as [d|]; [rewrite pad0_full by exact Hl|]; reflexivity.
+Qed.
+
+Lemma pad0_length n d : (length d <= n)%nat -> length (pad0 n d) = n.
+Proof. intros H. unfold pad0. rewrite app_length, repeat_length. lia. Qed.
+
+(* the padded cart, region by region *)
+Lemma pad_cart_facts c l' : wf_short c ->
+  let c' := pad_cart (norm_cart c l') in
+  c_version c' = c_version c /\ c_lua c' = l' /\ c_sfx c' = c_sfx c /\
+  c_gfx c' = c_gfx c ++ repeat 0 (Z.to_nat 8192 - length (c_gfx c)) /\ length (c_gfx c') = Z.to_nat 8192 /\
+  c_gff c' = c_gff c ++ repeat 0 (256 - length (c_gff c)) /\ length (c_gff c') = 256%nat /\
+  c_map c' = c_map c ++ repeat 0 (Z.to_nat 4096 - length (c_map c)) /\ length (c_map c') = Z.to_nat 4096 /\
+  c_music c' = music_norm (c_music c) ++ skipn (length (c_music c)) (concat (repeat [65; 66; 67; 68] 64)) /\
+  length (c_music c') = 256%nat /\
+  c_label c' = match c_label c with
+               | Some d => Some (d ++ repeat 0 (Z.to_nat 8192 - length d))
+               | None => None
+               end /\
+  match c_label c' with Some d => length d = Z.to_nat 8192 | None => True end.
+Proof.
+  intros (_ & (kg & Lg & Kg) & Lf & Lm & Ls & (kmu & Lmu & Kmu) & _ & _ & _ & _ & _ & Hlab & _).
+  unfold pad_cart, norm_cart. cbn [c_version c_lua c_gfx c_label c_gff c_map c_sfx c_music].
+  rewrite music_norm_length. fold music_default.
+  repeat split; try reflexivity.
+  - apply pad0_length. lia.
+  - apply pad0_length. exact Lf.
+  - apply pad0_length. exact Lm.
+  - rewrite app_length, music_norm_length, skipn_length. change (length music_default) with 256%nat. lia.
+  - destruct (c_label c) as [d|]; [|exact I]. destruct Hlab as ((kl & Ld & Kl) & _). apply pad0_length. lia.
+Qed.
+
 (* ---- the round trip ---- *)
+(* a cart with short regions: the file spells out just those rows; reading fills every region up *)
+Lemma p8_roundtrip_short c l0 : wf_short c ->
+  lua_from_lines (lua_to_lines (c_lua c)) = Ok l0 ->
+  ended_flag (lua_to_lines (c_lua c)) = ends_with_nl (code_text c) ->
+  code_in_format (code_text c) = true ->
+  exists file, write_p8 c = Ok file /\ file = concat (file_lines c) /\
+    read_p8 file = (l' <- lua_from_lines (code_lines c) ;; Ok (pad_cart (norm_cart c l'))).
+Proof.
+  intros W Hs He Hf. pose proof W as (_ & (kg & Lg & Kg) & Lf & Lm & Ls & (kmu & Lmu & Kmu) & _ & _ & _ & _ & _ & Hlab & Hch).
+  exists (concat (expected_chunks c)). split; [|split].
+  - unfold P8File.write_p8. rewrite (write_chunks_short lua lua_from_lines lua_to_lines c l0 W Hs). reflexivity.
+  - apply file_concat; assumption.
+  - unfold P8File.read_p8. rewrite (raw_data_ok c W He Hf). cbn [bind raw_sections raw_version].
+    rewrite (apply_sections_ok c W).
+    destruct (lua_from_lines (code_lines c)) as [l'|e]; [|reflexivity]. cbn [bind].
+    apply pad_sections_short; unfold norm_cart; cbn [c_version c_lua c_gfx c_label c_gff c_map c_sfx c_music];
+      try lia; try assumption.
+    + rewrite music_norm_length. lia.
+    + destruct (c_label c) as [d|]; [|exact I]. destruct Hlab as ((kl & Ld & Kl) & _). lia.
+Qed.
+
 Lemma p8_roundtrip c l0 : wf_cart c ->
   lua_from_lines (lua_to_lines (c_lua c)) = Ok l0 ->
   ended_flag (lua_to_lines (c_lua c)) = ends_with_nl (code_text c) ->
@@ -293,12 +415,14 @@ Lemma p8_roundtrip c l0 : wf_cart c ->
   exists file, write_p8 c = Ok file /\ file = concat (file_lines c) /\
     read_p8 file = (l' <- lua_from_lines (code_lines c) ;; Ok (norm_cart c l')).
 Proof.
-  intros W Hs He Hf. pose proof W as (_ & _ & _ & _ & _ & _ & _ & _ & _ & _ & _ & _ & Hch).
-  exists (concat (expected_chunks c)). split; [|split].
-  - unfold P8File.write_p8. rewrite (write_chunks_ok lua lua_from_lines lua_to_lines c l0 W Hs). reflexivity.
-  - apply file_concat; assumption.
-  - unfold P8File.read_p8. rewrite (raw_data_ok c W He Hf). cbn [bind raw_sections raw_version].
-    apply apply_sections_ok. exact W.
+  intros W Hs He Hf.
+  destruct (p8_roundtrip_short c l0 (wf_cart_short lua lua_to_lines c W) Hs He Hf) as (file & A & B & C).
+  exists file. split; [exact A|]. split; [exact B|]. rewrite C.
+  destruct (lua_from_lines (code_lines c)) as [l'|e]; [|reflexivity]. cbn [bind]. f_equal.
+  destruct W as (_ & Lg & Lf & Lm & _ & Lmu & _ & _ & _ & _ & _ & Hlab & _).
+  apply pad_cart_full; unfold norm_cart; cbn [c_version c_lua c_gfx c_label c_gff c_map c_sfx c_music]; try assumption.
+  - rewrite music_norm_length. exact Lmu.
+  - destruct (c_label c) as [d|]; [exact (proj1 Hlab) | exact I].
 Qed.
 
 End WithLua.
